@@ -78,7 +78,7 @@ WINDOW = 4
 HOLD = 3
 ASSUMPTIONS = [a % WINDOW if "%d" in a else a for a in ASSUMPTIONS]
 TIERS = {
-    "quick": {"examples": int(os.environ.get("VERIF_C13_EXAMPLES", "24000")), "budget_s": 150},   # env: development aid for mutant runs
+    "quick": {"examples": int(os.environ.get("VERIF_C13_EXAMPLES", "16000")), "budget_s": 150},   # env: development aid for mutant runs
     "thorough": {"examples": int(os.environ.get("VERIF_C13_THOROUGH_EXAMPLES", "200000")), "budget_s": 1400, "deep": True,
                  "fuzz_runs": int(os.environ.get("VERIF_C13_FUZZ_RUNS", "64000")), "fuzz_cap_s": 300},
 }
